@@ -66,11 +66,12 @@ DiffClauses(a, b, o, d) ==
             /\ Check(HasContext(d), "C06", "context-lines")
             /\ Check(Recurses(d), "C06", "recurse")
             /\ Check(Minimal(a, b, d), "C06", "minimal")
-            /\ Check(IndicesIncrease(d), "C06", "order")
+            \* document order of the hunks is what the code does, not what the statement demands: recorded only
+            /\ Note(IndicesIncrease(d), "C06", "order")
        ELSE TRUE
   /\ Judge("C07") =>
        /\ CheckD(MentionsOnlyDifferences(a, b, o, d), a, b, o, "C07", "real-difference")
-       /\ Check(Recurses(d), "C07", "equal-subdocument")
+       /\ Check(NoSharedPartReplaced(d), "C07", "equal-subdocument")
        /\ CheckD(NoRedundantHunk(a, b, o, d), a, b, o, "C07", "redundant-hunk")
 
 TDiff ==
